@@ -72,10 +72,14 @@ def build_jobs(work, quick, rng):
     add("minmax", 4, {"shape": [4, 5, 6, 7], "nprocs": [2, 2], "root": 3})
     add("figblock", 4, {"shape": [4, 5, 6, 7], "nprocs": [2, 2], "root": 0})
     add("figblock", 3, {"shape": [4, 5, 6, 7], "nprocs": [1, 3], "root": 2})
+    add("figblock", 4, {"shape": [4, 5, 6, 7], "nprocs": [2, 2], "root": 1, "cplx": True})       # complex grid (as the potential is)
     add("setupsave", 3, {"given": False}, cwd=os.path.join(work, "ss1"))
     add("setupsave", 3, {"given": True}, cwd=os.path.join(work, "ss2"))
     for lay, n, plot in (("v_parallel", 3, True), ("poloidal", 5, True), ("flux_surface", 4, False), ("v_parallel", 2, False), ("v_parallel", 1, True)):
         add("setup", n, {"cfile": cfile, "layout": lay, "plot": plot, "folder": os.path.join(work, "ck%d" % len(jobs))})
+    # the plot-only rank is not rank 0
+    add("setup", 4, {"cfile": cfile, "layout": "v_parallel", "plot": True, "draw": 3, "folder": None})
+    add("setup", 3, {"cfile": cfile, "layout": "flux_surface", "plot": True, "draw": 1, "folder": None})
     add("diag", 4, {"cfile": cfile})
     add("diag", 2, {"cfile": cfile, "savestep": 1})
     return jobs
